@@ -120,13 +120,16 @@ Ltac ty := destruct mono_types as (Tb & Tm & Ts).
 Definition toff (A nw : Z) : list out :=
   if Z.land CAP_TURN_OFF A =? 0 then [] else if chan c =? 255 then [] else [OTrig nw (chan c) CAP_TURN_OFF].
 
-Lemma ev_press nw k mx A g ls tn td ta rl ou :
+Lemma ev_press nw k mx A g ls si tn td ta rl ou :
   A <> 0 -> k <> -1 -> -100 <= k <= 100 ->
-  aact c (ANotify ST_ACTIVE) (mkmv nw ST_INACTIVE k mx A g ls false tn td ta rl false ou) =
+  asilent_ret c (mkmv nw ST_INACTIVE k mx A g ls si tn td ta rl false ou) = false ->   (* the silent start-up period is over *)
+  aact c (ANotify ST_ACTIVE) (mkmv nw ST_INACTIVE k mx A g ls si tn td ta rl false ou) =
   mkmv nw ST_ACTIVE (k + 1) mx A g (u32 (boot c + nw)) false true (nw + CYCLE_US) true rl false
        (ONotify nw ST_ACTIVE ST_INACTIVE k :: ou).
 Proof.
-  intros HA Hk Hr. ty. unfold aact. gv. unfold notifyV. cbv zeta. unfold asilent_ret. gv. kc. cbv iota.
+  intros HA Hk Hr Hsil. ty. unfold aact. gv. unfold notifyV. cbv zeta.
+  change (asilent_ret c (aemit _ _)) with (asilent_ret c (mkmv nw ST_INACTIVE k mx A g ls si tn td ta rl false ou)).
+  rewrite Hsil. gv. kc. cbv iota.
   replace (A =? 0) with false by (symmetry; apply Z.eqb_neq; exact HA). gv.
   unfold advH. cbv zeta. gv.
   replace (k =? -1) with false by (symmetry; apply Z.eqb_neq; exact Hk). gv.
@@ -375,7 +378,7 @@ Lemma xt_nil t : xt t (-1) = [].
 Proof. ty. unfold xt, trig_out, click_action. rewrite Hmono. kc. cbv iota. change (Z.land 0 A) with 0. reflexivity. Qed.
 
 Lemma R_step Tr k F L ph v a :
-  k = -1 \/ 1 <= k <= 100 ->
+  k = -1 \/ 0 <= k <= 100 ->
   RInv Tr k F L ph v -> idle a = true -> timely v -> a_now v - Tr < TWO32 ->
   exists ph', RInv Tr k F L ph' (aact c a v) /\
     (ph' = Final -> ph = Final \/ MULTICLICK_US <= a_now v - Tr) /\ (ph' = Unfired -> ph = Unfired) /\
@@ -406,12 +409,11 @@ Proof.
     + exists Unfired. unfold aact, motV, arelc. gv. rewrite Tm, andb_false_r.
       split; [split; [constructor; assumption|reflexivity]|repeat split; intros; congruence].
     + destruct (idle_out o ou Hi) as [E1 E2]. exists Unfired. unfold aact, aemit. gv.
-      split; [split; [constructor; congruence|reflexivity]|repeat split; intros; congruence].
+      split; [split; [constructor; [assumption|congruence|congruence]|reflexivity]|repeat split; intros; congruence].
     + exists Unfired. unfold aact. gv. split; [split; [constructor; assumption|reflexivity]|repeat split; intros; congruence].
   - (* fired, not yet timed out *)
     destruct HI as (t0 & HR & E). revert Ht H32 E. destruct HR as [nw td ou H1 H2 H3]. intros Ht H32 E.
     cbn [a_tdue a_now a_ton] in *.
-    set (F1 := (if M <=? k then xt t0 k else []) ++ F) in *.
     assert (K1 : k1 k < M) by (unfold k1; destruct (M <=? k) eqn:EM; [lia|apply Z.leb_gt in EM; lia]).
     destruct a; try discriminate.
     + exists Fired. unfold aact. gv. destruct (nw <=? t) eqn:E0; [apply Z.leb_le in E0; unfold set_now_v; gv|];
@@ -422,17 +424,18 @@ Proof.
            apply Z.leb_le in EQ. exists Final. split; [|repeat split; intros; try congruence; try discriminate; right; cbn; lia].
            unfold k1 in *. destruct (M <=? k) eqn:EM.
            ++ exists t0. rewrite EM. rewrite ev_tim_final_ovf by (try assumption; lia). constructor; assumption.
-           ++ exists nw. rewrite EM. apply Z.leb_gt in EM. destruct Hk as [-> | Hk].
+           ++ exists nw. rewrite EM. apply Z.leb_gt in EM. cbn [app] in H2. destruct Hk as [-> | Hk].
               ** kc. cbv iota. rewrite ev_tim_final_ovf by (try assumption; lia). constructor; assumption.
               ** replace (k =? -1) with false by (symmetry; apply Z.eqb_neq; lia).
                  destruct ((k =? 1) && negb (g =? NOREL)) eqn:EL.
                  --- apply andb_prop in EL as [EL1 EL2]. apply Z.eqb_eq in EL1. subst k. apply negb_true_iff in EL2. apply Z.eqb_neq in EL2.
                      rewrite ev_tim_final_local by (try assumption; lia). cbv zeta.
                      destruct ((if rl =? 1 then 0 else 1) =? rl); constructor; cbn [filter famo isloc]; congruence.
-                 --- rewrite ev_tim_final_trig; try assumption; try lia.
-                     2:{ apply andb_false_iff in EL as [EL|EL]; [left; apply Z.eqb_neq; exact EL|right; apply negb_false_iff in EL; apply Z.eqb_eq; exact EL]. }
+                 --- assert (HL : k <> 1 \/ g = NOREL).
+                     { apply andb_false_iff in EL as [EL|EL]; [left; apply Z.eqb_neq; exact EL|right; apply negb_false_iff in EL; apply Z.eqb_eq; exact EL]. }
+                     rewrite ev_tim_final_trig by (try assumption; lia).
                      constructor; [|rewrite filter_app; unfold trig_out; ifs; cbn; assumption].
-                     rewrite filter_app. unfold xt. unfold F1 in H2. cbn [app] in H2. rewrite H2. reflexivity.
+                     rewrite filter_app. unfold xt. rewrite H2. reflexivity.
         -- apply Z.leb_gt in EQ. exists Fired. split; [|repeat split; intros; try congruence; discriminate].
            rewrite ev_tim_rel_noop by (try assumption; lia). exists t0. split; [constructor; assumption|cbn; lia].
       * rewrite ev_tim_idle by (rewrite E0; reflexivity). exists Fired.
@@ -440,7 +443,7 @@ Proof.
     + exists Fired. unfold aact, motV, arelc. gv. rewrite Tm, andb_false_r.
       split; [exists t0; split; [constructor; assumption|exact E]|repeat split; intros; try congruence; discriminate].
     + destruct (idle_out o ou Hi) as [E1 E2]. exists Fired. unfold aact, aemit. gv.
-      split; [exists t0; split; [constructor; congruence|exact E]|repeat split; intros; try congruence; discriminate].
+      split; [exists t0; split; [constructor; [assumption|congruence|congruence]|exact E]|repeat split; intros; try congruence; discriminate].
     + exists Fired. unfold aact. gv.
       split; [exists t0; split; [constructor; assumption|exact E]|repeat split; intros; try congruence; discriminate].
   - (* at rest again *)
@@ -448,5 +451,369 @@ Proof.
     exists t0. destruct (M <=? k); [apply Z_step; assumption|].
     destruct (k =? -1); [apply Z_step; assumption|]. destruct (_ && _); apply Z_step; assumption.
 Qed.
+
+Lemma timely_run_end l : forall v, timely_run l v -> timely (arun c l v).
+Proof. induction l as [|a l IH]; intros v H; [exact (proj1 H)|]. destruct H as [_ H]. apply (IH _ H). Qed.
+Lemma timely_run_app l1 l2 : forall v, timely_run (l1 ++ l2) v -> timely_run l1 v /\ timely_run l2 (arun c l1 v).
+Proof.
+  induction l1 as [|a l1 IH]; intros v H.
+  - cbn [app] in H. split; [split; [exact (match l2 return timely_run l2 v -> timely v with [] => fun h => proj1 h | _ :: _ => fun h => proj1 h end H)|exact I]|exact H].
+  - destruct H as [H1 H2]. destruct (IH _ H2) as [I1 I2]. split; [split; assumption|exact I2].
+Qed.
+Lemma arun_app l1 l2 v : arun c (l1 ++ l2) v = arun c l2 (arun c l1 v).
+Proof. unfold arun. apply fold_left_app. Qed.
+
+Lemma R_run Tr k F L l : forall ph v,
+  k = -1 \/ 0 <= k <= 100 -> RInv Tr k F L ph v -> all_idle l -> timely_run l v -> a_now (arun c l v) - Tr < TWO32 ->
+  exists ph', RInv Tr k F L ph' (arun c l v) /\
+    (ph' = Final -> ph = Final \/ MULTICLICK_US <= a_now (arun c l v) - Tr) /\ (ph' = Unfired -> ph = Unfired) /\
+    (ph = Final -> ph' = Final) /\ (ph = Fired -> ph' <> Unfired).
+Proof.
+  induction l as [|a l IH]; intros ph v Hk HI Hi Ht H32.
+  - exists ph. split; [exact HI|]. repeat split; intros; auto. congruence.
+  - unfold all_idle in Hi. cbn in Hi. apply andb_prop in Hi as [Hi1 Hi2]. destruct Ht as [Ht1 Ht2].
+    change (arun c (a :: l) v) with (arun c l (aact c a v)) in *.
+    pose proof (now_arun c l (aact c a v)) as N1. pose proof (now_aact c a v) as N2.
+    destruct (R_step Tr k F L ph v a Hk HI Hi1 Ht1 ltac:(lia)) as (ph1 & I1 & a1 & a2 & a3 & a4).
+    destruct (IH ph1 (aact c a v) Hk I1 Hi2 Ht2 H32) as (ph2 & I2 & b1 & b2 & b3 & b4).
+    exists ph2. split; [exact I2|]. repeat split.
+    + intros E. destruct (b1 E) as [E1|E1]; [destruct (a1 E1) as [E2|E2]; [left; exact E2|right; lia]|right; exact E1].
+    + intros E. apply a2, b2, E.
+    + intros E. apply b3, a3, E.
+    + intros E E2. destruct ph1; [exact (a4 E eq_refl)|exact (b4 eq_refl E2)|]. specialize (b3 eq_refl). congruence.
+Qed.
+
+Lemma R_live Tr k F L ph v : RInv Tr k F L ph v -> timely v ->
+  match ph with Unfired => a_now v <= Tr + CYCLE_US + J | Fired => a_now v < Tr + MULTICLICK_US + CYCLE_US + J | Final => True end.
+Proof.
+  intros HI Ht. destruct ph; [| |exact I].
+  - destruct HI as [HR E]. revert Ht E. destruct HR as [nw td ou H1 H2 H3]. unfold timely. cbn [a_ton a_now a_tdue]. intros Ht E.
+    specialize (Ht eq_refl). lia.
+  - destruct HI as (t0 & HR & E). revert Ht E. destruct HR as [nw td ou H1 H2 H3]. unfold timely. cbn [a_ton a_now a_tdue]. intros Ht E.
+    specialize (Ht eq_refl). lia.
+Qed.
+
+Lemma fam_toff t : filter famo (toff A t) = [] /\ filter isloc (toff A t) = [].
+Proof. unfold toff. ifs; split; reflexivity. Qed.
+
+(* a release recognised while pressed *)
+Lemma do_release T k F L v : PSt T k F L v ->
+  RInv (a_now v) k F L Unfired (aact c (ANotify ST_INACTIVE) v).
+Proof.
+  intros [nw td ou H1 H2 H3]. cbn [a_now]. rewrite ev_release by exact HA.
+  destruct (fam_toff nw) as [E1 E2].
+  split; [|reflexivity]. constructor; [lia| |]; rewrite filter_app; cbn [filter famo isloc]; rewrite ?E1, ?E2; assumption.
+Qed.
+(* a press recognised while released with the timer running, or at rest *)
+Lemma do_press_R Tr k F L v : -1 <= k <= 99 -> RSt Tr k F L v ->
+  PSt (a_now v) (if k =? -1 then -1 else k + 1) F L (aact c (ANotify ST_ACTIVE) v).
+Proof.
+  intros Hk [nw td ou H1 H2 H3]. cbn [a_now]. destruct (k =? -1) eqn:E.
+  - apply Z.eqb_eq in E. subst k. rewrite ev_press_ovf by exact HA. constructor; [lia|assumption|assumption].
+  - apply Z.eqb_neq in E. rewrite ev_press by (try assumption; try reflexivity; lia). constructor; [lia|assumption|assumption].
+Qed.
+Lemma do_press_Z nw ls si td ta ou :
+  asilent_ret c (mkmv nw ST_INACTIVE 0 M A g ls si false td ta rl false ou) = false ->
+  PSt nw 1 (filter famo ou) (filter isloc ou)
+      (aact c (ANotify ST_ACTIVE) (mkmv nw ST_INACTIVE 0 M A g ls si false td ta rl false ou)).
+Proof. intros Hs. rewrite ev_press by (try assumption; lia). constructor; [lia|reflexivity|reflexivity]. Qed.
+
+(* ---- N clicks ---- *)
+Record clk := { iP : list astep; iR : list astep }.
+Fixpoint gtrace (cl : list clk) : list astep :=
+  match cl with [] => [] | x :: r => ANotify ST_ACTIVE :: iP x ++ ANotify ST_INACTIVE :: iR x ++ gtrace r end.
+(* the timing of the gesture, read off the run: v is the view at the moment the next press is recognised *)
+Fixpoint gok (first : bool) (v : mv) (cl : list clk) : Prop :=
+  match cl with
+  | [] => True
+  | x :: r =>
+    let v1 := arun c (iP x) (aact c (ANotify ST_ACTIVE) v) in            (* just before the release is recognised *)
+    let v2 := arun c (iR x) (aact c (ANotify ST_INACTIVE) v1) in          (* just before the next press / at the end *)
+    all_idle (iP x) /\ all_idle (iR x) /\
+    (first = true -> a_now v1 - a_now v < HOLD_US) /\                     (* the first press is shorter than the hold time *)
+    (r <> [] -> CYCLE_US + J < a_now v2 - a_now v1 < MULTICLICK_US) /\    (* quick: the next press comes within the multi-click time *)
+    (r = [] -> MULTICLICK_US + CYCLE_US + J <= a_now v2 - a_now v1) /\    (* then silence *)
+    gok false v2 r
+  end.
+
+Definition verdict (N : Z) (F0 L0 : list out) (v : mv) : Prop :=
+  exists t,
+    if M <=? N then ZSt (xt t M ++ F0) L0 v
+    else if (N =? 1) && negb (g =? NOREL) then ZSt F0 (OActive t :: L0) v
+    else ZSt (xt t N ++ F0) L0 v.
+
+(* between two clicks: n clicks so far *)
+Definition Mid (n : Z) (F0 L0 : list out) (v : mv) : Prop :=
+  exists Tr, (n < M /\ RSt Tr n F0 L0 v) \/ (M <= n /\ exists t, RSt Tr (-1) (xt t M ++ F0) L0 v).
+
+Lemma clicks_from_P cl : forall n T k F L F0 L0 v x,
+  0 <= n -> n + Z.of_nat (length cl) < 99 ->
+  (* pressed for the (n+1)-th time, k = counter *)
+  PSt T k F L v ->
+  ((n + 1 < M \/ n + 1 = M) /\ k = n + 1 /\ F = F0 \/ M <= n /\ k = -1 /\ exists t, F = xt t M ++ F0) -> L = L0 ->
+  all_idle (iP x) -> all_idle (iR x) ->
+  let v1 := arun c (iP x) v in
+  let v2 := arun c (iR x) (aact c (ANotify ST_INACTIVE) v1) in
+  (k = 1 -> a_now v1 - T < HOLD_US) ->
+  (cl <> [] -> CYCLE_US + J < a_now v2 - a_now v1 < MULTICLICK_US) ->
+  (cl = [] -> MULTICLICK_US + CYCLE_US + J <= a_now v2 - a_now v1) ->
+  gok false v2 cl ->
+  timely_run (iP x ++ ANotify ST_INACTIVE :: iR x ++ gtrace cl) v ->
+  a_now (arun c (gtrace cl) v2) - T < TWO32 ->
+  verdict (n + 1 + Z.of_nat (length cl)) F0 L0 (arun c (gtrace cl) v2).
+Proof.
+  induction cl as [|y r IH]; intros n T k F L F0 L0 v x Hn Hlen HP Hst HL HiP HiR v1 v2 Hh Hq Hs Hg Ht H32.
+  - (* last click *)
+    clear Hq. specialize (Hs eq_refl). cbn [gtrace arun fold_left length Z.of_nat] in *. rewrite Z.add_0_r.
+    destruct (timely_run_app (iP x) _ v Ht) as [Tp Tr']. fold v1 in Tr'. destruct Tr' as [_ Tr'].
+    destruct (timely_run_app (iR x) _ _ Tr') as [TR _].
+    pose proof (now_arun c (iR x) (aact c (ANotify ST_INACTIVE) v1)) as N1. pose proof (now_aact c (ANotify ST_INACTIVE) v1) as N2.
+    assert (HT1 : T <= a_now v) by (destruct HP; cbn; lia). pose proof (now_arun c (iP x) v) as N0. fold v1 in N0. fold v2 in N1.
+    assert (HP1 : PSt T k F L v1).
+    { apply P_run; try assumption; [|fold v1; lia]. fold v1. destruct (Z.eq_dec k 1) as [E|E]; [right; apply Hh; exact E|left; exact E]. }
+    pose proof (do_release T k F L v1 HP1) as HR0.
+    assert (Hk : k = -1 \/ 0 <= k <= 100) by (destruct Hst as [(_ & E & _)|(_ & E & _)]; lia).
+    destruct (R_run (a_now v1) k F L (iR x) Unfired _ Hk HR0 HiR TR ltac:(fold v2; lia)) as (ph & HI & b1 & b2 & b3 & b4).
+    fold v2 in HI, b1.
+    pose proof (R_live _ _ _ _ _ _ HI (timely_run_end _ _ TR)) as LV. fold v2 in LV.
+    destruct ph; [lia|lia|]. clear LV.
+    destruct HI as (t & HZ). unfold verdict. subst L.
+    destruct Hst as [(Hc & -> & ->)|(Hc & -> & (t1 & ->))].
+    + destruct Hc as [Hc| Hc].
+      * exists t. replace (M <=? n + 1) with false in * by (symmetry; apply Z.leb_gt; lia).
+        replace (n + 1 =? -1) with false in HZ by (symmetry; apply Z.eqb_neq; lia). exact HZ.
+      * exists t. replace (M <=? n + 1) with true in * by (symmetry; apply Z.leb_le; lia). rewrite <- Hc. exact HZ.
+    + exists t1. replace (M <=? n + 1) with true by (symmetry; apply Z.leb_le; lia).
+      replace (M <=? -1) with false in HZ by (symmetry; apply Z.leb_gt; lia). cbn [Z.eqb] in HZ. exact HZ.
+  - (* more clicks follow *)
+    clear Hs. specialize (Hq ltac:(discriminate)).
+    destruct (timely_run_app (iP x) _ v Ht) as [Tp Tr']. fold v1 in Tr'. destruct Tr' as [_ Tr'].
+    destruct (timely_run_app (iR x) _ _ Tr') as [TR Tg]. fold v2 in Tg.
+    cbn [gtrace] in *. change (arun c (ANotify ST_ACTIVE :: iP y ++ ANotify ST_INACTIVE :: iR y ++ gtrace r) v2)
+      with (arun c (iP y ++ ANotify ST_INACTIVE :: iR y ++ gtrace r) (aact c (ANotify ST_ACTIVE) v2)) in *.
+    rewrite arun_app in *. change (arun c (ANotify ST_INACTIVE :: iR y ++ gtrace r) ?z) with (arun c (iR y ++ gtrace r) (aact c (ANotify ST_INACTIVE) z)) in *.
+    rewrite arun_app in *.
+    set (w := aact c (ANotify ST_ACTIVE) v2) in *. set (w1 := arun c (iP y) w) in *.
+    set (w2 := arun c (iR y) (aact c (ANotify ST_INACTIVE) w1)) in *.
+    pose proof (now_arun c (iR x) (aact c (ANotify ST_INACTIVE) v1)) as N1. pose proof (now_aact c (ANotify ST_INACTIVE) v1) as N2.
+    assert (HT1 : T <= a_now v) by (destruct HP; cbn; lia). pose proof (now_arun c (iP x) v) as N0. fold v1 in N0. fold v2 in N1.
+    pose proof (now_aact c (ANotify ST_ACTIVE) v2) as N3. fold w in N3. pose proof (now_arun c (iP y) w) as N4. fold w1 in N4.
+    pose proof (now_aact c (ANotify ST_INACTIVE) w1) as N5. pose proof (now_arun c (iR y) (aact c (ANotify ST_INACTIVE) w1)) as N6. fold w2 in N6.
+    pose proof (now_arun c (gtrace r) w2) as N7.
+    assert (HP1 : PSt T k F L v1).
+    { apply P_run; try assumption; [|fold v1; lia]. fold v1. destruct (Z.eq_dec k 1) as [E|E]; [right; apply Hh; exact E|left; exact E]. }
+    pose proof (do_release T k F L v1 HP1) as HR0.
+    assert (Hk : k = -1 \/ 0 <= k <= 100) by (destruct Hst as [(_ & E & _)|(_ & E & _)]; cbn [length] in Hlen; lia).
+    destruct (R_run (a_now v1) k F L (iR x) Unfired _ Hk HR0 HiR TR ltac:(fold v2; lia)) as (ph & HI & b1 & b2 & b3 & b4).
+    fold v2 in HI, b1.
+    pose proof (R_live _ _ _ _ _ _ HI (timely_run_end _ _ TR)) as LV. fold v2 in LV.
+    destruct ph; [lia| |destruct (b1 eq_refl) as [?|?]; [discriminate|lia]]. clear LV.
+    destruct HI as (t & HRS & _).
+    cbn [gok] in Hg. fold w w1 w2 in Hg. destruct Hg as (g1 & g2 & _ & g4 & g5 & g6).
+    destruct Tg as [_ Tg]. fold w in Tg.
+    replace (n + 1 + Z.of_nat (length (y :: r))) with ((n + 1) + 1 + Z.of_nat (length r)) by (cbn [length]; lia).
+    assert (HPw : PSt (a_now v2) (if k1 k =? -1 then -1 else k1 k + 1) ((if M <=? k then xt t k else []) ++ F) L w).
+    { eapply do_press_R; [|exact HRS]. unfold k1. destruct (M <=? k); lia. }
+    eapply (IH (n + 1) (a_now v2) _ _ L F0 L0 w y); try eassumption; try lia.
+    + cbn [length] in Hlen. lia.
+    + (* the bookkeeping of counter and reported trigger *)
+      unfold k1. destruct Hst as [(Hc & -> & ->)|(Hc & -> & (t1 & ->))].
+      * destruct Hc as [Hc|Hc].
+        -- replace (M <=? n + 1) with false by (symmetry; apply Z.leb_gt; lia).
+           replace (n + 1 =? -1) with false by (symmetry; apply Z.eqb_neq; lia).
+           left. split; [lia|]. split; reflexivity.
+        -- replace (M <=? n + 1) with true by (symmetry; apply Z.leb_le; lia). cbn [Z.eqb].
+           right. split; [lia|]. split; [reflexivity|]. exists t. rewrite Hc. reflexivity.
+      * replace (M <=? -1) with false by (symmetry; apply Z.leb_gt; lia). cbn [Z.eqb].
+        right. split; [lia|]. split; [reflexivity|]. exists t1. reflexivity.
+    + intros E. exfalso. unfold k1 in E. destruct Hst as [(Hc & -> & _)|(_ & -> & _)].
+      * destruct (M <=? n + 1); [cbn in E; lia|]. replace (n + 1 =? -1) with false in E by (symmetry; apply Z.eqb_neq; lia). lia.
+      * replace (M <=? -1) with false in E by (symmetry; apply Z.leb_gt; lia). cbn in E. lia.
+    + fold w1 w2. lia.
+Qed.
+
+(* N >= 1 quick clicks from rest, then silence *)
+Theorem gesture_thm : forall x cl nw ls si td ta ou,
+  let v0 := mkmv nw ST_INACTIVE 0 M A g ls si false td ta rl false ou in
+  let tr := gtrace (x :: cl) in
+  asilent_ret c v0 = false ->
+  Z.of_nat (length (x :: cl)) < 99 ->
+  gok true v0 (x :: cl) -> timely_run tr v0 -> a_now (arun c tr v0) - nw < TWO32 ->
+  verdict (Z.of_nat (length (x :: cl))) (filter famo ou) (filter isloc ou) (arun c tr v0).
+Proof.
+  intros x cl nw ls si td ta ou v0 tr Hsil Hlen Hg Ht H32. subst tr. cbn [gtrace] in *.
+  change (arun c (ANotify ST_ACTIVE :: iP x ++ ANotify ST_INACTIVE :: iR x ++ gtrace cl) v0)
+    with (arun c (iP x ++ ANotify ST_INACTIVE :: iR x ++ gtrace cl) (aact c (ANotify ST_ACTIVE) v0)) in *.
+  rewrite arun_app in *.
+  change (arun c (ANotify ST_INACTIVE :: iR x ++ gtrace cl) ?z) with (arun c (iR x ++ gtrace cl) (aact c (ANotify ST_INACTIVE) z)) in *.
+  rewrite arun_app in *.
+  set (v := aact c (ANotify ST_ACTIVE) v0) in *.
+  cbn [gok] in Hg. fold v in Hg. destruct Hg as (g1 & g2 & g3 & g4 & g5 & g6).
+  destruct Ht as [_ Ht]. fold v in Ht.
+  pose proof (do_press_Z nw ls si td ta ou Hsil) as HP. fold v0 v in HP.
+  replace (Z.of_nat (length (x :: cl))) with (0 + 1 + Z.of_nat (length cl)) by (cbn [length]; lia).
+  eapply (clicks_from_P cl 0 nw 1 _ _ _ _ v x); try eassumption; try reflexivity; try lia.
+  - cbn [length] in Hlen. lia.
+  - left. split; [lia|]. split; reflexivity.
+  - intros _. apply g3. reflexivity.
+Qed.
+
+(* ---- the long press ---- *)
+Definition ht (t : Z) : list out := filter famo (trig_out A t CAP_HOLD).
+Inductive HSt (T : Z) (F L : list out) : mv -> Prop :=
+| HSt_i nw td ou : T <= nw -> filter famo ou = F -> filter isloc ou = L ->
+    HSt T F L (mkmv nw ST_ACTIVE 0 M A g (u32 (boot c + T)) false false td true rl false ou).
+Definition HInv (T : Z) (F L : list out) (held : bool) (v : mv) : Prop :=
+  if held then exists t, HSt T (ht t ++ F) L v
+  else PSt T 1 F L v /\ a_tdue v < T + HOLD_US + CYCLE_US.
+
+Lemma H_step T F L held v a : HInv T F L held v -> idle a = true -> a_now v - T < TWO32 ->
+  exists held', HInv T F L held' (aact c a v) /\ (held = true -> held' = true) /\
+                (held' = true -> held = true \/ HOLD_US <= a_now v - T).
+Proof.
+  intros HI Hi H32. ty. pose proof CF as [Cy _ _ _ _ _ _]. destruct held.
+  - destruct HI as (t0 & HS). exists true. split; [|auto]. exists t0.
+    destruct HS as [nw td ou H1 H2 H3]. destruct a; try discriminate.
+    + unfold aact. gv. destruct (nw <=? t) eqn:E; [apply Z.leb_le in E; unfold set_now_v; gv; constructor; try assumption; lia|constructor; assumption].
+    + rewrite ev_tim_idle by reflexivity. constructor; assumption.
+    + unfold aact, motV, arelc. gv. rewrite Tm, andb_false_r. constructor; assumption.
+    + destruct (idle_out o ou Hi) as [E1 E2]. unfold aact, aemit. gv. constructor; [assumption|congruence|congruence].
+    + unfold aact. gv. constructor; assumption.
+  - destruct HI as [HP E]. revert H32 E. destruct HP as [nw td ou H1 H2 H3]. cbn [a_now a_tdue]. intros H32 E.
+    destruct a; try discriminate.
+    + exists false. split; [|split; [discriminate|intros; discriminate]].
+      unfold aact. gv. destruct (nw <=? t) eqn:E0; [apply Z.leb_le in E0; unfold set_now_v; gv|]; (split; [constructor; try assumption; lia|cbn; lia]).
+    + destruct (td <=? nw) eqn:E0.
+      * apply Z.leb_le in E0. destruct (HOLD_US <=? nw - T) eqn:EH.
+        -- apply Z.leb_le in EH. exists true. split; [|split; [discriminate|intros; right; exact EH]].
+           exists nw. rewrite ev_tim_hold by (try assumption; lia). constructor; [assumption| |].
+           ++ rewrite filter_app. unfold ht. rewrite H2. reflexivity.
+           ++ rewrite filter_app. unfold trig_out. ifs; cbn; assumption.
+        -- apply Z.leb_gt in EH. exists false. split; [|split; [discriminate|intros; discriminate]].
+           rewrite ev_tim_pressed by (try assumption; try lia; right; exact EH). split; [constructor; assumption|cbn; lia].
+      * exists false. split; [|split; [discriminate|intros; discriminate]].
+        rewrite ev_tim_idle by (rewrite E0; reflexivity). split; [constructor; assumption|exact E].
+    + exists false. split; [|split; [discriminate|intros; discriminate]].
+      unfold aact, motV, arelc. gv. rewrite Tm, andb_false_r. split; [constructor; assumption|exact E].
+    + destruct (idle_out o ou Hi) as [E1 E2]. exists false. split; [|split; [discriminate|intros; discriminate]].
+      unfold aact, aemit. gv. split; [constructor; [assumption|congruence|congruence]|exact E].
+    + exists false. split; [|split; [discriminate|intros; discriminate]].
+      unfold aact. gv. split; [constructor; assumption|exact E].
+Qed.
+
+Lemma H_run T F L l : forall held v, HInv T F L held v -> all_idle l -> a_now (arun c l v) - T < TWO32 ->
+  exists held', HInv T F L held' (arun c l v) /\ (held = true -> held' = true).
+Proof.
+  induction l as [|a l IH]; intros held v HI Hi H32; [exists held; auto|].
+  unfold all_idle in Hi. cbn in Hi. apply andb_prop in Hi as [Hi1 Hi2].
+  change (arun c (a :: l) v) with (arun c l (aact c a v)) in *.
+  pose proof (now_arun c l (aact c a v)). pose proof (now_aact c a v).
+  destruct (H_step T F L held v a HI Hi1 ltac:(lia)) as (h1 & I1 & a1 & _).
+  destruct (IH h1 _ I1 Hi2 H32) as (h2 & I2 & b1). exists h2. split; [exact I2|]. intros E. apply b1, a1, E.
+Qed.
+
+Lemma xt_zero t : xt t 0 = [].
+Proof. ty. unfold xt, trig_out, click_action. rewrite Hmono. kc. cbv iota. change (Z.land 0 A) with 0. reflexivity. Qed.
+
+(* press from rest, held beyond the hold time, released, then silence: exactly the HOLD trigger (if enabled) *)
+Theorem hold_thm : forall iPl iRl nw ls si td ta ou,
+  let v0 := mkmv nw ST_INACTIVE 0 M A g ls si false td ta rl false ou in
+  let v1 := arun c iPl (aact c (ANotify ST_ACTIVE) v0) in
+  let v2 := arun c iRl (aact c (ANotify ST_INACTIVE) v1) in
+  asilent_ret c v0 = false -> all_idle iPl -> all_idle iRl ->
+  HOLD_US + CYCLE_US + J <= a_now v1 - nw ->                       (* pressed long enough *)
+  MULTICLICK_US + CYCLE_US + J <= a_now v2 - a_now v1 ->           (* then silence *)
+  timely_run (ANotify ST_ACTIVE :: iPl ++ ANotify ST_INACTIVE :: iRl) v0 -> a_now v2 - nw < TWO32 -> CYCLE_US < HOLD_US ->
+  exists t, ZSt (ht t ++ filter famo ou) (filter isloc ou) v2.
+Proof.
+  intros iPl iRl nw ls si td ta ou v0 v1 v2 Hsil HiP HiR Hh Hs Ht H32 HCH. pose proof CF as [Cy _ _ _ _ _ _].
+  destruct Ht as [_ Ht]. destruct (timely_run_app iPl _ _ Ht) as [TP TR]. fold v1 in TR. destruct TR as [_ TR].
+  pose proof (now_arun c iRl (aact c (ANotify ST_INACTIVE) v1)) as N1. fold v2 in N1.
+  pose proof (now_aact c (ANotify ST_INACTIVE) v1) as N2.
+  pose proof (do_press_Z nw ls si td ta ou Hsil) as HP. fold v0 in HP.
+  assert (HI0 : HInv nw (filter famo ou) (filter isloc ou) false (aact c (ANotify ST_ACTIVE) v0)).
+  { split; [exact HP|]. unfold v0. rewrite ev_press by (try assumption; lia). cbn [a_tdue]. lia. }
+  destruct (H_run nw _ _ iPl false _ HI0 HiP ltac:(fold v1; lia)) as (held & HI1 & _). fold v1 in HI1.
+  destruct held.
+  2:{ exfalso. destruct HI1 as [HP1 E]. pose proof (timely_run_end _ _ TP) as TL. fold v1 in TL. revert E TL Hh.
+      destruct HP1 as [nw1 td1 ou1 H1 H2 H3]. unfold timely. cbn [a_now a_tdue a_ton]. intros E TL Hh. specialize (TL eq_refl). lia. }
+  destruct HI1 as (t & HS). exists t.
+  assert (HR0 : RInv (a_now v1) 0 (ht t ++ filter famo ou) (filter isloc ou) Unfired (aact c (ANotify ST_INACTIVE) v1)).
+  { destruct HS as [nw1 td1 ou1 H1 H2 H3]. cbn [a_now]. rewrite ev_release by exact HA.
+    destruct (fam_toff nw1) as [E1 E2].
+    split; [|reflexivity]. constructor; [lia| |]; rewrite filter_app; cbn [filter famo isloc]; rewrite ?E1, ?E2; assumption. }
+  destruct (R_run (a_now v1) 0 _ _ iRl Unfired _ ltac:(right; lia) HR0 HiR TR ltac:(fold v2; lia)) as (ph & HI & b1 & b2 & b3 & b4).
+  fold v2 in HI.
+  pose proof (R_live _ _ _ _ _ _ HI (timely_run_end _ _ TR)) as LV. fold v2 in LV.
+  destruct ph; [lia|lia|]. destruct HI as (t2 & HZ).
+  replace (M <=? 0) with false in HZ by (symmetry; apply Z.leb_gt; lia). cbn [Z.eqb andb] in HZ.
+  rewrite xt_zero in HZ. exact HZ.
+Qed.
 End Gest.
 End Mono.
+
+(* ---------- the same about the model ---------- *)
+Lemma pend_t_on s : t_on s = true -> now s - t_due s <= pend s.
+Proof. intros H. unfold pend. rewrite H. lia. Qed.
+
+Lemma timely_from_late c J ms : forall s,
+  cfg_btn c = false -> forallb (fun m => negb (is_trig m)) ms = true ->
+  pend s <= J -> late (mrun c ms s) <= J -> timely_run c J (atrace c ms s) (view s).
+Proof.
+  induction ms as [|m ms IH]; intros s Hc Hn Hp Hl.
+  - cbn. split; [|exact I]. unfold timely. cbn. intros H. pose proof (pend_t_on s H). lia.
+  - cbn in Hn. apply andb_prop in Hn as [H1 H2]. apply negb_true_iff in H1.
+    cbn [atrace timely_run]. split.
+    + unfold timely. cbn. intros H. pose proof (pend_t_on s H). lia.
+    + rewrite <- sim_step by assumption. rewrite mrun_cons in Hl. apply IH; try assumption.
+      pose proof (mstep_pend c m s). pose proof (mrun_late c ms (mstep c m s)). lia.
+Qed.
+
+Theorem at_single_trigger_thm : forall c A M g rl J ms s x cl nw ls si td ta ou,
+  is_mono c = true -> cfg_btn c = false -> A <> 0 -> 2 <= M -> CYCLE_US + J < MULTICLICK_US ->
+  forallb (fun m => negb (is_trig m)) ms = true ->
+  (* at rest in action-trigger mode: released, counter 0, button timer idle *)
+  view s = mkmv nw ST_INACTIVE 0 M A g ls si false td ta rl false ou ->
+  asilent_ret c (view s) = false ->
+  (* the schedule is a gesture of N = 1 + |cl| clicks: notifies alternate press / release, the rest is idle *)
+  atrace c ms s = gtrace (x :: cl) -> Z.of_nat (length (x :: cl)) < 99 ->
+  gok c J true (view s) (x :: cl) ->
+  pend s <= J -> late (mrun c ms s) <= J -> now (mrun c ms s) - now s < TWO32 ->
+  verdict c A M g (Z.of_nat (length (x :: cl))) (filter famo (outs s)) (filter isloc (outs s)) (view (mrun c ms s)).
+Proof.
+  intros c A M g rl J ms s x cl nw ls si td ta ou Hm Hc HA HM HJM Hn Hv Hsil Htr Hlen Hg Hp Hl H32.
+  pose proof (timely_from_late c J ms s Hc Hn Hp Hl) as HT. rewrite Htr in HT.
+  assert (Eo : outs s = ou) by (change (outs s) with (a_outs (view s)); rewrite Hv; reflexivity).
+  assert (En : now s = nw) by (change (now s) with (a_now (view s)); rewrite Hv; reflexivity).
+  assert (H32' : a_now (arun c (gtrace (x :: cl)) (view s)) - nw < TWO32).
+  { rewrite <- Htr, <- sim_run by assumption. change (a_now (view (mrun c ms s))) with (now (mrun c ms s)). lia. }
+  rewrite sim_run by assumption. rewrite Htr, Eo. rewrite Hv in *.
+  apply (gesture_thm c Hm A M g rl J HA HM HJM x cl nw ls si td ta ou); assumption.
+Qed.
+
+Theorem at_hold_thm : forall c A M g rl J ms s iPl iRl nw ls si td ta ou,
+  is_mono c = true -> cfg_btn c = false -> A <> 0 -> 2 <= M -> 0 <= J -> CYCLE_US + J < MULTICLICK_US ->
+  forallb (fun m => negb (is_trig m)) ms = true ->
+  view s = mkmv nw ST_INACTIVE 0 M A g ls si false td ta rl false ou ->
+  asilent_ret c (view s) = false ->
+  atrace c ms s = ANotify ST_ACTIVE :: iPl ++ ANotify ST_INACTIVE :: iRl -> all_idle iPl -> all_idle iRl ->
+  let v1 := arun c iPl (aact c (ANotify ST_ACTIVE) (view s)) in
+  HOLD_US + CYCLE_US + J <= a_now v1 - now s ->
+  MULTICLICK_US + CYCLE_US + J <= now (mrun c ms s) - a_now v1 ->
+  pend s <= J -> late (mrun c ms s) <= J -> now (mrun c ms s) - now s < TWO32 ->
+  exists t, ZSt A M g (ht c A t ++ filter famo (outs s)) (filter isloc (outs s)) (view (mrun c ms s)).
+Proof.
+  intros c A M g rl J ms s iPl iRl nw ls si td ta ou Hm Hc HA HM HJ HJM Hn Hv Hsil Htr HiP HiR v1 Hh Hs Hp Hl H32.
+  pose proof (timely_from_late c J ms s Hc Hn Hp Hl) as HT. rewrite Htr in HT.
+  assert (Eo : outs s = ou) by (change (outs s) with (a_outs (view s)); rewrite Hv; reflexivity).
+  assert (En : now s = nw) by (change (now s) with (a_now (view s)); rewrite Hv; reflexivity).
+  assert (Ev : view (mrun c ms s) = arun c iRl (aact c (ANotify ST_INACTIVE) v1)).
+  { rewrite sim_run by assumption. rewrite Htr.
+    change (arun c (ANotify ST_ACTIVE :: iPl ++ ANotify ST_INACTIVE :: iRl) (view s))
+      with (arun c (iPl ++ ANotify ST_INACTIVE :: iRl) (aact c (ANotify ST_ACTIVE) (view s))).
+    rewrite arun_app. reflexivity. }
+  assert (En2 : now (mrun c ms s) = a_now (arun c iRl (aact c (ANotify ST_INACTIVE) v1))) by (rewrite <- Ev; reflexivity).
+  rewrite Ev, Eo. subst v1. rewrite Hv in *.
+  assert (HCH : CYCLE_US < HOLD_US) by (vm_compute; reflexivity).
+  apply (hold_thm c Hm A M g rl J HA HM HJ HJM iPl iRl nw ls si td ta ou); try assumption; lia.
+Qed.
